@@ -93,6 +93,14 @@ func norm(c *ex.Ctx, r renamer, e ast.Expr) string {
 		case *ast.SelectorExpr:
 			return f(e.X) + "." + e.Sel.Name
 		case *ast.BinaryExpr:
+			// `a < b` is printed as `b > a`, `a <= b` as `b >= a` (round 3): the orientation of a
+			// comparison changes no fact
+			switch e.Op {
+			case token.LSS:
+				return "(" + f(e.Y) + ">" + f(e.X) + ")"
+			case token.LEQ:
+				return "(" + f(e.Y) + ">=" + f(e.X) + ")"
+			}
 			return "(" + f(e.X) + e.Op.String() + f(e.Y) + ")"
 		case *ast.UnaryExpr:
 			return e.Op.String() + f(e.X)
